@@ -116,6 +116,11 @@ func DeepEqual(x, y interface{}) bool {
 		typy = typy.Elem()
 	}
 
+	// two integers are compared as integers: as float64 different values beyond 2^53 are equal
+	if equal, ok := compareIntegersIfOk(typx, typy); ok {
+		return equal
+	}
+
 	flx, okx := parseFloatIfOk(typx)
 	fly, oky := parseFloatIfOk(typy)
 	if okx && oky {
@@ -123,6 +128,34 @@ func DeepEqual(x, y interface{}) bool {
 	}
 
 	return reflect.DeepEqual(typx.Interface(), typy.Interface())
+}
+
+func compareIntegersIfOk(x, y reflect.Value) (equal bool, ok bool) {
+	isSigned := func(v reflect.Value) bool {
+		switch v.Kind() {
+		case reflect.Int, reflect.Int8, reflect.Int16, reflect.Int32, reflect.Int64:
+			return true
+		}
+		return false
+	}
+	isUnsigned := func(v reflect.Value) bool {
+		switch v.Kind() {
+		case reflect.Uint, reflect.Uint8, reflect.Uint16, reflect.Uint32, reflect.Uint64, reflect.Uintptr:
+			return true
+		}
+		return false
+	}
+	switch {
+	case isSigned(x) && isSigned(y):
+		return x.Int() == y.Int(), true
+	case isUnsigned(x) && isUnsigned(y):
+		return x.Uint() == y.Uint(), true
+	case isSigned(x) && isUnsigned(y):
+		return x.Int() >= 0 && uint64(x.Int()) == y.Uint(), true
+	case isUnsigned(x) && isSigned(y):
+		return y.Int() >= 0 && uint64(y.Int()) == x.Uint(), true
+	}
+	return false, false
 }
 
 func parseFloatIfOk(val reflect.Value) (float64, bool) {
